@@ -2413,13 +2413,14 @@ static int32_t tls13ParseNewSessionTicket(ssl_t *ssl, psParseBuf_t *pb)
     }
     else
     {
-        ssl->sid = psMalloc(ssl->hsPool, sizeof(sslSessionId_t));
-        if (ssl->sid == NULL)
-        {
-            goto out_internal_error;
-        }
-        Memset(ssl->sid, 0, sizeof(sslSessionId_t));
-        ssl->sid->pool = ssl->hsPool;
+        /* The application supplied no session id object: there is nowhere
+           to keep the ticket for a later session (and nobody would free
+           an object allocated here: matrixSslDeleteSession releases
+           ssl->sid for servers only).  The ticket has been parsed and
+           validated; drop it. */
+        psTraceInfo("NewSessionTicket ignored: no session id object\n");
+        rc = PS_SUCCESS;
+        goto do_free;
     }
 # ifdef USE_STATELESS_SESSION_TICKETS
     ssl->sid->sessionTicket = psMalloc(ssl->sid->pool, ticketLen);
